@@ -1,3 +1,5 @@
+import DSV.Proofs.Skeleton
+import DSV.Generated.Skeleton
 import DSV.Proofs.Fs
 /-!
 C16 — commits are durable: the pointer never outruns the data it references.
@@ -96,3 +98,35 @@ example : commitTraceFail [⟨10, 1, 0⟩, ⟨11, 2, 0⟩] 1 = [.creat 10 0, .wr
   decide
 
 end DSV.Fs
+
+/-! ## Tie to the current source: the syscall order of the two atomic writers -/
+namespace DSV.Src.C16
+open DSV.Skel DSV.Generated.Skel DSV.Fs
+
+/-- **source_write_file_is_lowerWrite** — the success path of the CURRENT `LocalStorageBackend.write_file` is the model's
+`lowerWrite`: create temp, write, fsync(file), rename, fsync(directory). -/
+theorem source_write_file_is_lowerWrite (t p d : Nat) :
+    lowerOf false (mainPath (project fsVoc localWriteFile)) = (lowerWrite t p d).map evTag := by
+  simp only [lowerWrite, List.map, evTag]; decide
+
+/-- **source_data_writer_is_lowerWrite** — the success path of the CURRENT `DataFileWriter.close` is `lowerWrite` without its
+first event (the temp file was created when the writer was opened): finish writing, fsync(file), rename, fsync(directory). -/
+theorem source_data_writer_is_lowerWrite (t p d : Nat) :
+    lowerOf false (mainPath (project fsVoc dataWriterClose)) = ((lowerWrite t p d).map evTag).tail := by
+  simp only [lowerWrite, List.map, evTag]; decide
+
+/-- **source_failure_path_unlinks_temp** — the failure handler of both writers only removes the temp file (inside a catch-all of its own) and re-raises. -/
+theorem source_failure_path_unlinks_temp :
+    ((project fsVoc localWriteFile).dropWhile (· != "handler")) = ["handler", "unlink", "handler"] ∧
+    ((project fsVoc dataWriterClose).dropWhile (· != "handler")) = ["handler", "unlink", "handler"] := by decide
+
+/-- **source_prebuilt_persisted_before_queue** — a pre-built file is made durable before it can be queued for a commit. -/
+theorem source_prebuilt_persisted_before_queue :
+    allBefore "persist" "queue" (project txVoc txAppendFiles) = true := by decide
+
+/-- **source_files_before_pointer** — `_commit_file_ops` writes manifests and the manifest list before the call that
+advances the pointer, and validates the data files before the manifest that adds them. -/
+theorem source_files_before_pointer :
+    project fileOpsVoc txCommitFileOps = ["manifest", "validate", "manifest", "manifestList", "commit"] := by decide
+
+end DSV.Src.C16
